@@ -503,3 +503,13 @@ func init() {
 		}
 	}
 }
+
+func init() {
+	debugHooks["readguard-baseline"] = func(p *ir.Program) {
+		c := &Ctx{P: p, R: report.New("DBG", "quick")}
+		sigs := c.rgSigs(callPkgs)
+		b, _ := json.MarshalIndent(sigs, "", " ")
+		fmt.Println("BASELINE-BEGIN")
+		fmt.Println(string(b))
+	}
+}
